@@ -3,22 +3,24 @@
 Explored: every expression of a small grammar
 
     term  =  prefactor x (1..3 occurrences of the removable tensor N, each in
-             any block of N's family, exponent 1..2)
+             any block of N's family, exponent 1..3)
                        x (0..2 remainder tensors: generic NonSymmetricTensor
                           x / y, or an Amplitude u with permutational symmetry)
 
-with EVERY index pattern of all slots (set partitions per (space, spin): this
+with EVERY index pattern of the slots (set partitions per (space, spin): this
 produces contracted, repeated, hyper-contracted and target indices on the
-removed tensor), every family (AntiSymmetricTensor with bra-ket symmetry
-0 / +1 / -1 of rank (1,1), (2,2), (1,2), (3,3); SymmetricTensor; plain and ADC
-Amplitudes X / Y of rank (0,1) (1,1) (1,2) (2,2) (3,3); NonSymmetricTensor of
-rank 1..4; spin-labelled blocks), Einstein and explicit target sets, plus sums
-of two such terms (same / different block, term without the tensor, different
+removed tensor) within the bounds returned by bounds(tier); families:
+AntiSymmetricTensor with bra-ket symmetry 0 / +1 / -1 of rank (1,1), (2,2),
+(2,1), (1,2), (3,3); SymmetricTensor (bra-ket 0 / +1 / -1); plain and ADC
+Amplitudes X / Y of rank (0,1) (1,0) (1,1) (1,2) (2,1) (2,2) (3,3);
+NonSymmetricTensor of rank 1..4; blocks with general and with spin-labelled
+indices; Einstein and explicit target sets; sums of two such terms (same /
+different block, a term without the tensor, folded bra-ket partners, different
 removal order).  For every case remove_tensor(expr, N) and derivative(expr, N)
 of the real adcgen are called.
 
-Oracle (reference interpreter, exact polynomial identities in the formal
-tensor entries, N_orbitals >= number of index symbols => valid for all sizes):
+Oracle (reference interpreter vmc.evalexpr: exact polynomial identities in the
+formal tensor entries):
 
   remove_tensor:  value(E)  ==  sum_keys  prod_b w_b *
                      value( prod_b N_b(slot indices) * R_key )      [targets of E]
@@ -35,6 +37,10 @@ tensor entries, N_orbitals >= number of index symbols => valid for all sizes):
       the product rule)  ==  sum_blocks value( eta_b(tensor indices) * D_b )
       where the tensor indices are the minimised indices of the occurrence
       (targets kept, others -> lowest non-target names).
+
+Violations are classified by root cause (finding keys, see SPECIAL,
+ORDER_FINDING, AMBIGUOUS_FINDING) or, if none applies, by the class of the
+removed tensor and the features of the input.
 """
 import itertools
 import math
@@ -62,10 +68,13 @@ RULE = ("state = (expression descriptor: prefactor, occurrences of the "
         "bra-ket symmetry, occurs more than once / with an exponent, or "
         "carries a target or repeated index, or the expression has >= 2 terms")
 ASSUMPTIONS = [
-    "free tensor model with N_occ, N_virt >= number of index symbols of a "
-    "term per space (verdict valid for every orbital-space size; sums over "
-    "indices that occur on Kronecker deltas only are compared at this single "
-    "N)",
+    "free tensor model; N_occ / N_virt = number of index symbols per space of "
+    "the largest term that is evaluated, but not more than (symbols of the "
+    "input term + 1): slot indices of the re-contraction are tied to indices "
+    "of the input by Kronecker deltas, so every monomial of a correct result "
+    "fits; for inputs the verdict therefore holds for every orbital-space "
+    "size, a wrong extra term is only missed if ALL its monomials need more "
+    "than one additional orbital",
     "re-contraction is the literal product  tensor(slot indices) * returned "
     "block expression, summed over every index that is no target of the "
     "input; slot indices follow the documented minimal-index convention "
@@ -75,6 +84,9 @@ ASSUMPTIONS = [
     "groups in any order (existential)",
     "derivative: an occurrence carrying target / repeated indices is "
     "re-contracted with a variation carrying the same (minimised) indices",
+    "explicit target sets always contain the indices that occur once "
+    "(explicit targets are documented as a supplement of the Einstein "
+    "convention)",
     "the classes of adcgen.sympy_objects and the Expr container constructor "
     "are trusted (checked by C06 / C08)",
 ]
@@ -143,23 +155,21 @@ FAM4_Q = {      # tensors with 3 / 4 slots
 }
 FAM4_T = {
     "W": ("W", [(2, "oovv"), (2, "ooov"), (2, "oooo"), (2, "ovov"),
-                (2, "vvoo"), (2, "ovvv"), (2, "vvvv"), (2, "ovoo"),
-                (2, "gggg")]),
+                (2, "vvoo"), (2, "ovvv"), (2, "gggg")]),
     "V": ("V", [(2, "oovv"), (2, "ovov"), (2, "oooo"), (2, "vvoo"),
-                (2, "ooov"), (2, "vvvv"), (2, "ovvv"), (2, "ovoo")]),
-    "A": ("A", [(2, "oovv"), (2, "ovov"), (2, "oooo"), (2, "ooov"),
-                (2, "vvoo")]),
-    "v": ("v", [(2, "oovv"), (2, "ovov"), (2, "oooo"), (2, "vvoo"),
                 (2, "ooov")]),
-    "s": ("s", [(2, "oovv"), (2, "oooo"), (2, "ovov")]),
+    "A": ("A", [(2, "oovv"), (2, "ovov"), (2, "oooo"), (2, "vvoo")]),
+    "v": ("v", [(2, "oovv"), (2, "ovov"), (2, "oooo")]),
+    "s": ("s", [(2, "oovv"), (2, "oooo")]),
     "b": ("b", [(2, "oovv"), (2, "oooo")]),
     "X2": ("X", [(2, "vvoo"), (1, "voo"), (2, "vvo")]),
+    "Y2": ("Y", [(2, "vvoo")]),
+    "t2": ("t2", [(2, "vvoo")]),
     "z4": ("z", [(3, "oov"), (4, "oovv"), (3, "ooo")]),
     "d21": ("d", [(2, "ooo"), (1, "ovv")]),
     "Wspin": ("W", [(2, SPIN_W), (2, ("oa", "oa", "va", "va")),
                     (2, ("oa", "ob", "oa", "ob"))]),
-    "Vspin": ("V", [(2, SPIN_W), (2, ("oa", "ob", "oa", "ob")),
-                    (2, ("oa", "oa", "oa", "oa"))]),
+    "Vspin": ("V", [(2, SPIN_W), (2, ("oa", "ob", "oa", "ob"))]),
     "X2spin": ("X", [(2, ("va", "vb", "oa", "ob")),
                      (2, ("va", "va", "oa", "oa"))]),
 }
@@ -170,11 +180,8 @@ PAIRS4_Q = [("W", (2, "oovv"), (2, "vvoo")), ("V", (2, "oovv"), (2, "oovv")),
 PAIRS4_T = [("V", (2, "ovov"), (2, "ovov")), ("W", (2, "ooov"), (2, "ovov")),
             ("X", (1, "voo"), (1, "voo")), ("t2", (2, "vvoo"), (2, "vvoo")),
             ("v", (2, "oovv"), (2, "oovv")), ("A", (2, "oovv"), (2, "oovv")),
-            ("z", (3, "oov"), (3, "oov")), ("d", (2, "ooo"), (2, "ooo")),
             ("V", (2, "ooov"), (2, "ooov")), ("V", (2, "oooo"), (2, "oovv")),
-            ("W", (2, "oooo"), (2, "oooo")), ("Y", (1, "vo"), (2, "vvoo")),
-            ("W", (2, "oovv"), (2, "oovv")), ("V", (2, "oooo"), (2, "ooov")),
-            ("s", (2, "oovv"), (2, "oovv")), ("W", (2, SPIN_W), (2, SPIN_W)),
+            ("Y", (1, "vo"), (2, "vvoo")), ("W", (2, SPIN_W), (2, SPIN_W)),
             ("X", (2, ("va", "vb", "oa", "ob")), (1, ("va", "oa")))]
 # rank (3,3): only fully contracted with a generic / an antisymmetric remainder
 TRIPLES = [("W", 3, "ooovvv"), ("V", 3, "ooovvv"), ("X", 3, "vvvooo"),
@@ -206,7 +213,8 @@ def bounds(tier):
         "occurrences_per_term": 3, "max_exponent": 2 if quick else 3,
         "remainder_objects": 2, "terms_per_expression": 2,
         "distinct_index_names_per_space_and_term": 4 if quick else 5,
-        "einstein_targets_per_term": 4 if quick else 6,
+        "einstein_targets_per_term": 4,
+        "distinct_general_index_names_per_term": 3,
         "index_patterns": "all set partitions of the slots of one (space, "
                           "spin); the slots of a generic remainder tensor "
                           "carry their names in non-decreasing pool order "
@@ -527,15 +535,15 @@ def generate(tier):
     seen = set()
     counter = [0]
     maxd = 4 if quick else 5     # distinct index names per space and term
-    maxt = 4 if quick else 6     # Einstein target indices per term
+    maxt = 4                     # Einstein target indices per term
 
-    def add(terms, name):
+    def add(terms, name, md=None):
         terms = tuple(terms)
         for t in terms:
             per = {}
             for nme in all_names(t):
                 per[key_of_name(nme)[0]] = per.get(key_of_name(nme)[0], 0) + 1
-            if max(per.values()) > maxd or \
+            if max(per.values()) > (md or maxd) or per.get("g", 0) > 3 or \
                     len(einstein_names(t)[0]) > maxt:
                 return False
             if build_term(t) is S.Zero:
@@ -588,9 +596,8 @@ def generate(tier):
             n = len(keys)
             ks = _spaces_sorted(keys)
             rems = [(), (("x", ks),)]
-            if not quick:
+            if not quick and fid in ("W", "X2"):
                 rems.append((("x", ks[:-1]),))
-                rems.append((("x", ks[1:]),))
                 up, lo = split_slots(TSPEC[tname][0], nu, n)
                 if up and lo:
                     rems.append((("x", [keys[p] for p in up]),
@@ -600,7 +607,7 @@ def generate(tier):
                 rr = _rem_ranges(n, rem)
                 for names in _patterns(keys + rkeys, distinct=rr, ordered=rr):
                     add([_term(pref(), [(tname, nu, 1, n)], rem, names)],
-                        tname)
+                        tname, 4)
             ur = _u_remainder(tname, nu, keys)
             if ur is not None:
                 uu, ul = ur
@@ -611,7 +618,7 @@ def generate(tier):
                         continue
                     objs = ((tname, nu, 1, tuple(names[:n])),
                             ("u", len(uu), 1, tuple(names[n:])))
-                    add([(pref(), objs)], tname)
+                    add([(pref(), objs)], tname, 4)
     # ---- (3) exponents
     for fams, small in ((f2, True), (f4, False)):
         for fid, (tname, blocks) in fams.items():
@@ -620,6 +627,9 @@ def generate(tier):
                 n = len(keys)
                 ks = _spaces_sorted(keys)
                 for ex in ((2,) if quick or not small else (2, 3)):
+                    if ex == 3 and (fid not in ("d", "f", "a", "X1") or
+                                    (nu, block) != blocks[0]):
+                        continue
                     # Term.symmetry() of a power enumerates the permutations
                     # of ex * (slots per space) entries: tensors with 3 / 4
                     # slots only with <= 2 slots per (space, spin)
@@ -628,6 +638,9 @@ def generate(tier):
                     if not small and quick and \
                             (fid not in ("W", "V", "X2") or
                              sorted(keys) != list("oovv")):
+                        continue
+                    if not small and fid not in ("W", "V", "A", "v", "X2",
+                                                 "t2"):
                         continue
                     rems = [(), (("x", ks),)]
                     if small:
@@ -663,7 +676,7 @@ def generate(tier):
             rems = [(), (("x", allk[:2]),)]
             if not quick or fid == "d":
                 rems.append((("x", allk),))
-            if not quick:
+            if not quick and fid == "d":
                 rems.append((("x", allk[1:]),))
                 rems.append((("x", allk[:2]), ("y", allk[2:])))
             occs = [(tname, nu1, 1, len(k1)), (tname, nu2, 1, len(k2))]
@@ -673,9 +686,9 @@ def generate(tier):
                 dist = rr if len(rkeys) > 2 else ()
                 for names in _patterns(k1 + k2 + rkeys, ordered=rr,
                                        distinct=dist):
-                    add([_term(pref(), occs, rem, names)], tname)
+                    add([_term(pref(), occs, rem, names)], tname, 4)
             # exponent on one of two occurrences
-            if fid in (("d", "X1") if quick else ("d", "f", "a", "X1")):
+            if fid in ("d", "X1"):
                 rem = (("x", allk[:2]),)
                 occs2 = [(tname, nu1, 2, len(k1)), (tname, nu2, 1, len(k2))]
                 for names in _patterns(k1 + k2 + allk[:2],
@@ -683,7 +696,7 @@ def generate(tier):
                     if quick and len(set(names[:nt])) < 3:
                         continue
                     add([_term(pref(), occs2, rem, names)], tname)
-        if fid in ("d", "f") or not quick:
+        if fid in ("d", "f"):
             for (nu1, b1), (nu2, b2), (nu3, b3) in \
                     itertools.combinations_with_replacement(
                         blocks[:2 if quick else 3], 3):
@@ -693,7 +706,7 @@ def generate(tier):
                     continue
                 occs = [(tname, nu1, 1, len(k1)), (tname, nu2, 1, len(k2)),
                         (tname, nu3, 1, len(k3))]
-                rems = [()] if quick else \
+                rems = [()] if quick or fid != "d" else \
                     [(), (("x", _spaces_sorted(allk)[:2]),)]
                 for rem in rems:
                     rkeys = [k for _, kk in rem for k in kk]
@@ -703,9 +716,9 @@ def generate(tier):
                         c = {}
                         for nme in names[:len(allk)]:
                             c[nme] = c.get(nme, 0) + 1
-                        if quick and max(c.values()) > 2:
+                        if max(c.values()) > 2:
                             continue
-                        add([_term(pref(), occs, rem, names)], tname)
+                        add([_term(pref(), occs, rem, names)], tname, 4)
     # ---- (5) two occurrences of tensors with 3 / 4 slots (and mixed ranks
     #          of one name): the second occurrence carries its names per
     #          (space, spin) in non-decreasing order; quick: no index twice on
@@ -717,9 +730,9 @@ def generate(tier):
         n1, n2 = len(k1), len(k2)
         occs = [(tname, nu1, 1, n1), (tname, nu2, 1, n2)]
         for names in _patterns(k1 + k2, ordered=[(n1, n1 + n2)]):
-            if quick and (len(set(names[:n1])) < n1 or
-                          len(set(names[n1:])) < n2):
-                continue
+            if len(set(names[:n1])) < n1 or len(set(names[n1:])) < n2:
+                if quick or (tname, (nu1, b1), (nu2, b2)) not in PAIRS4_Q[:3]:
+                    continue
             t0 = _term("1", occs, (), names)
             ein0 = list(einstein_names(t0)[0])
             variants = [[]] if len(ein0) <= 2 or not quick else []
@@ -729,12 +742,10 @@ def generate(tier):
                 elif not quick:
                     h = len(ein0) // 2
                     variants.append([("x", ein0[:h]), ("y", ein0[h:])])
-                if not quick and len(ein0) >= 2:
-                    variants.append([("x", ein0[:-1])])
             for var in variants:
                 objs = t0[1] + tuple((nm, len(ns), 1, tuple(ns))
                                      for nm, ns in var)
-                add([(pref(), objs)], tname)
+                add([(pref(), objs)], tname, 4)
     # ---- (6) rank (3,3), thorough only: fully contracted with a generic
     #          tensor (every assignment of its slots) / an antisymmetric one
     if not quick:
@@ -798,7 +809,7 @@ def generate(tier):
             if n1 + n2 > (2 if quick else 3):
                 continue
             pairs.append((name, t1, t2))
-    lim = 220 if quick else 4000
+    lim = 220 if quick else 2000
     if len(pairs) > lim:
         step = len(pairs) / lim
         pairs = [pairs[int(k * step)] for k in range(lim)]
@@ -1049,6 +1060,13 @@ SPECIAL = (
     "derivative:tensor-carries-target-index",
     "derivative:tensor-carries-repeated-index",
 )
+
+
+# derivative() adds the contributions of all occurrences of one block under
+# one key although their (minimised) index tuples differ (d_ii / d_ij,
+# d_ia with target i / d_ja): no variation tensor can be contracted with the sum
+AMBIGUOUS_FINDING = ("derivative:one-block-sums-occurrences-with-different-"
+                     "target-or-repeated-index-patterns")
 
 
 def _fk(fclass, suffix):
@@ -1372,7 +1390,8 @@ def _check_derivative(ctx):
                  "index tuple of the variation was tried)")
     return dict(base, status="violation",
                 outcome=outcome + (":ambiguous" if ambiguous else ":value"),
-                finding=_fk(fclass, ":value"),
+                finding=AMBIGUOUS_FINDING if ambiguous
+                else _fk(fclass, ":value"),
                 detail=info + "sum_blocks eta_b * derivative_b differs from "
                 "the coefficient of eps in E(N + eps*eta): " + fmt_diff(diff)
                 + extra)
